@@ -1200,6 +1200,7 @@ func c20RunReset(t *testing.T, r *vfRand, pool []c20Key, ids map[string]int, cfg
 		// gate: parks every write/sync/query call made on behalf of ResetCids
 		var gmu sync.Mutex
 		gateOn := false
+		gateCount := map[string]int{}
 		var parked *string
 		release := make(chan struct{})
 		store.gate = func(ctx context.Context, kind, key string) {
@@ -1216,7 +1217,8 @@ func c20RunReset(t *testing.T, r *vfRand, pool []c20Key, ids map[string]int, cfg
 				gmu.Unlock()
 				return
 			}
-			d := kind + " " + key
+			gateCount[kind]++
+			d := fmt.Sprintf("%s#%d %s", kind, gateCount[kind], key)
 			parked = &d
 			gmu.Unlock()
 			<-release
@@ -1706,7 +1708,7 @@ func c20ResetCase(t *testing.T, cs *vfCases, r *vfRand, i int, seed uint64) {
 	case 2: // the same key put twice between phase B and the final drain
 		k := pool[0]
 		cfg.conc = [][]c20Key{{k}, {k, pool[1]}}
-		cfg.putOnly, cfg.fault, cfg.cancelAt, cfg.closeAt, cfg.hazard = "query", "", -1, -1, "dup-buffered"
+		cfg.putOnly, cfg.fault, cfg.cancelAt, cfg.closeAt, cfg.hazard = "query#2", "", -1, -1, "dup-buffered"
 		if cfg.bs < 2 {
 			cfg.bs = 2
 		}
